@@ -86,7 +86,14 @@ def texpr(t: Dict[str, Any], prog: Dict[str, Any]) -> str:
     if k == "opt":
         return f"Optional[{texpr(t['of'], prog)}]"
     if k == "union":
-        return "Union[" + ", ".join(texpr(a, prog) for a in t["alts"]) + "]"
+        u = "Union[" + ", ".join(texpr(a, prog) for a in t["alts"]) + "]"
+        disc = t.get("disc")
+        if disc:  # discriminated union: {"alias": str, "mapping": None | {key: index of the alternative}}
+            if disc.get("mapping"):
+                m = ", ".join(f"{key!r}: {texpr(t['alts'][i], prog)}" for key, i in disc["mapping"].items())
+                return f"Annotated[{u}, discriminator({disc['alias']!r}, {{{m}}})]"
+            return f"Annotated[{u}, discriminator({disc['alias']!r})]"
+        return u
     if k == "ann":
         return f"Annotated[{texpr(t['of'], prog)}, {cexpr(t['c'])}]"
     if k == "unsup":
